@@ -61,53 +61,29 @@ Qed.
 Lemma format_tag_hidden enc f p n o : g_hidden p = true -> format_tag enc f p n o = [].
 Proof. intros Hh. unfold format_tag. now rewrite Hh. Qed.
 
-(* table fact: the only output_ready with the single-newline rule is Doctype's, whose suffix ends with a newline *)
-Lemma kind2_suffix c : output_kind c = 2%N -> exists s0, snd (affixes c) = s0 ++ [nl_].
+Lemma ends_nl_split s : ends_nl s = true -> removelast s ++ [nl_] = s.
 Proof.
-  unfold output_kind, string_class_output. cbn [assocN].
-  repeat match goal with
-         | |- context [N.eqb c ?k] => destruct (N.eqb_spec c k); [subst; intros H; try discriminate H|]
-         end; try (intros H; discriminate H).
-  exists [gt_]. reflexivity.
+  unfold ends_nl. intros H. rewrite <- (rev_involutive s). destruct (rev s) as [|x r]; [discriminate|]. cbn [rev].
+  destruct x as [|p]; [discriminate|].
+  destruct p as [p|p|]; try discriminate. destruct p as [p|p|]; try discriminate.
+  destruct p as [p|p|]; try discriminate. destruct p as [p|p|]; try discriminate.
+  now rewrite removelast_last.
 Qed.
 
-Lemma kind2_is_doctype c : output_kind c = 2%N -> c = 6%N.
+Lemma string_tokens_spell f c s pn :
+  concat (map spell (string_tokens f c s pn)) = output_ready f c s pn.
 Proof.
-  unfold output_kind, string_class_output. cbn [assocN].
-  repeat match goal with
-         | |- context [N.eqb c ?k] => destruct (N.eqb_spec c k); [subst; intros H; try discriminate H; try reflexivity|]
-         end; intros H; discriminate H.
-Qed.
-
-Lemma removelast_snoc {X} (l : list X) x : removelast (l ++ [x]) = l.
-Proof. now rewrite removelast_last. Qed.
-Lemma ends_nl_snoc s : ends_nl (s ++ [nl_]) = true.
-Proof. unfold ends_nl. now rewrite rev_app_distr. Qed.
-
-Lemma match_kind {X} (k : N) (a b d : X) :
-  match k with 0%N => a | 2%N => b | _ => d end = if (k =? 0)%N then a else if (k =? 2)%N then b else d.
-Proof. destruct k as [|[[]|[]|]]; reflexivity. Qed.
-
-Lemma string_tokens_spell f c s pn nn :
-  concat (map spell (string_tokens f c s pn nn)) = output_ready f c s pn nn.
-Proof.
-  unfold string_tokens, output_ready. rewrite !match_kind. destruct (affixes c) as [pre suf] eqn:Ea.
-  rewrite match_kind.
-  destruct (N.eqb_spec (output_kind c) 0) as [E0|E0].
+  unfold string_tokens, output_ready. destruct (affixes c) as [pre suf] eqn:Ea.
+  destruct (preformatted c).
+  - unfold trailing. rewrite Ea. cbn [snd]. destruct (ends_nl suf) eqn:E.
+    + cbn [map concat spell]. unfold special_suffix. rewrite Ea. cbn [fst snd]. rewrite E, app_nil_r, <- !app_assoc.
+      now rewrite (ends_nl_split suf E).
+    + cbn [map concat spell]. unfold special_suffix. rewrite Ea. cbn [fst snd]. now rewrite E, app_nil_r.
   - cbn [map concat spell fst snd]. now rewrite app_nil_r.
-  - destruct (N.eqb_spec (output_kind c) 2) as [E2|E2].
-    + destruct (kind2_suffix c E2) as [s0 Hs]. rewrite Ea in Hs. cbn [snd] in Hs. subst suf.
-      assert (Eout : pre ++ s ++ s0 ++ [nl_] = (pre ++ s ++ s0) ++ [nl_]) by now rewrite <- !app_assoc.
-      cbn zeta. rewrite Eout, ends_nl_snoc, removelast_snoc.
-      assert (Esp : spell (TSpecial c s) = pre ++ s ++ s0).
-      { unfold spell, special_suffix. rewrite E2, Ea. cbn [fst snd N.eqb Pos.eqb]. now rewrite removelast_snoc. }
-      destruct nn; cbn [andb map concat]; rewrite Esp; cbn [spell]; now rewrite ?app_nil_r, <- ?app_assoc.
-    + cbn [map concat]. unfold spell, special_suffix. rewrite Ea. cbn [fst snd].
-      destruct (N.eqb_spec (output_kind c) 2) as [E|E]; [contradiction|]. now rewrite app_nil_r.
 Qed.
 
-Lemma tokens_tag enc f pn nn p ks :
-  tokens enc f pn nn (NTag p ks) =
+Lemma tokens_tag enc f pn p ks :
+  tokens enc f pn (NTag p ks) =
   if g_hidden p then TNone :: tokens_kids enc f (g_name p) ks ++ (if is_empty_element p (length ks) then [] else [TNone])
   else if is_empty_element p (length ks) then [TEmptyTag (qname p) (token_attrs enc f p) (f_void f)]
   else TOpen (qname p) (token_attrs enc f p) :: tokens_kids enc f (g_name p) ks ++ [TClose (qname p)].
@@ -118,10 +94,10 @@ Proof.
     induction ks as [|k ks IH]; cbn; [reflexivity|]. now rewrite IH.
 Qed.
 
-Theorem tokens_spell enc f : forall t pn nn,
-  concat (map spell (tokens enc f pn nn t)) = concat (plain enc f pn nn t).
+Theorem tokens_spell enc f : forall t pn,
+  concat (map spell (tokens enc f pn t)) = concat (plain enc f pn t).
 Proof.
-  induction t as [c s|p ks IH] using node_ind'; intros pn nn.
+  induction t as [c s|p ks IH] using node_ind'; intros pn.
   - cbn [tokens plain concat]. now rewrite string_tokens_spell, app_nil_r.
   - rewrite tokens_tag, plain_tag. cbn zeta.
     assert (Hk : concat (map spell (tokens_kids enc f (g_name p) ks)) = concat (plain_kids enc f (g_name p) ks)).
@@ -234,7 +210,8 @@ Section RoundTrip.
   Definition push_text (s : str) (chunks : list str) : list str :=
     match s with [] => chunks | _ => s :: chunks end.
   Definition kind0 (c : N) : bool := (output_kind c =? 0)%N.
-  Definition kind2 (c : N) : bool := (output_kind c =? 2)%N.
+  (* the chunk a declaration's trailing newline becomes *)
+  Definition trail_chunks (c : N) : list str := push_text (trailing c) [].
 
   Fixpoint nn_node (pres : bool) (cont : N) (t : node) : list nnode :=
     match t with
@@ -254,8 +231,8 @@ Section RoundTrip.
                        if kind0 c then ([], push_text s chunks)
                        else match read_special c s with
                             | Some (c', s') => (flushc pres' cont' chunks ++ [NS c' (collapse cfg pres' s')],
-                                                if kind2 c && negb (starts_nl r) then [[nl_]] else [])
-                            | None => ([], chunks)
+                                                trail_chunks c)
+                            | None => ([], push_text (trailing c) chunks)
                             end
                    | NTag _ _ => (flushc pres' cont' chunks ++ nn_node pres' cont' k, [])
                    end in
@@ -263,21 +240,20 @@ Section RoundTrip.
              end) [] ks in
         [NT q (norm_attrs enc f p) (ns ++ flushc pres' cont' ch)]
     end.
-  Definition nk1 (pres : bool) (cont : N) (chunks : list str) (nnl : bool) (k : node) : list nnode * list str :=
+  Definition nk1 (pres : bool) (cont : N) (chunks : list str) (k : node) : list nnode * list str :=
     match k with
     | NStr c s =>
         if kind0 c then ([], push_text s chunks)
         else match read_special c s with
-             | Some (c', s') => (flushc pres cont chunks ++ [NS c' (collapse cfg pres s')],
-                                 if kind2 c && negb nnl then [[nl_]] else [])
-             | None => ([], chunks)
+             | Some (c', s') => (flushc pres cont chunks ++ [NS c' (collapse cfg pres s')], trail_chunks c)
+             | None => ([], push_text (trailing c) chunks)
              end
     | NTag _ _ => (flushc pres cont chunks ++ nn_node pres cont k, [])
     end.
   Fixpoint nk (pres : bool) (cont : N) (chunks : list str) (l : list node) : list nnode * list str :=
     match l with
     | [] => ([], chunks)
-    | k :: r => let '(ns1, ch1) := nk1 pres cont chunks (starts_nl r) k in
+    | k :: r => let '(ns1, ch1) := nk1 pres cont chunks k in
                 let '(ns2, ch2) := nk pres cont ch1 r in (ns1 ++ ns2, ch2)
     end.
   Lemma nn_node_tag pres cont p ks :
@@ -457,15 +433,14 @@ Section RoundTrip.
   Qed.
   (* its end tag: pending text becomes a string, the element is closed *)
   Lemma step_end nodes1 x open par attrs q more chunks pres' cont' :
-    str_eqb q (c_root cfg) = false ->
     let me := length nodes1 in
     let nodes2 := (nodes1 ++ [mksn par (tag_payload cfg q attrs)]) ++ more in
     ctx (mkss nodes2 (me :: x :: open) chunks) pres' cont' ->
     fold_left (s_step cfg) [EEnd q None] (mkss nodes2 (me :: x :: open) chunks) =
     mkss (sn_kids cfg nodes2 me (flushc pres' cont' chunks)) (x :: open) [].
   Proof.
-    intros Hroot me nodes2 Hc. cbn [fold_left s_step]. rewrite (flush_step _ _ _ _ _ _ None Hc). cbn [flush_class].
-    rewrite Hroot. cbn [s_open s_nodes s_pending close_through].
+    intros me nodes2 Hc. cbn [fold_left s_step]. rewrite (flush_step _ _ _ _ _ _ None Hc). cbn [flush_class].
+    cbn [s_open s_nodes s_pending close_through].
     destruct (sn_kids_prefix cfg (flushc pres' cont' chunks) nodes2 me) as [m2 E]. rewrite E.
     unfold nodes2. rewrite <- (app_assoc _ more m2). rewrite s_name_me, s_prefix_me. cbn [tag_payload p_name p_prefix opt_str_eqb].
     assert (Eq : str_eqb q q = true) by now apply str_eqb_eq. rewrite Eq. cbn [andb]. reflexivity.
@@ -476,11 +451,11 @@ Section RoundTrip.
     match pn with Some n => memS n (f_cdata f) = false | None => True end.
   Definition result (nodes : list snode) (x : nat) (open : list nat) (r : list nnode * list str) : mstate :=
     (mkss (sn_kids cfg nodes x (fst r)) (x :: open) (snd r), r0).
-  Definition P (t : node) : Prop := forall nodes x open chunks pres cont pn nnl,
+  Definition P (t : node) : Prop := forall nodes x open chunks pres cont pn,
     ctx (mkss nodes (x :: open) chunks) pres cont ->
     representable f rc cfg t = true -> pn_ok pn ->
-    mrun (mkss nodes (x :: open) chunks, r0) (tokens enc f pn nnl t) =
-    result nodes x open (nk1 pres cont chunks nnl t).
+    mrun (mkss nodes (x :: open) chunks, r0) (tokens enc f pn t) =
+    result nodes x open (nk1 pres cont chunks t).
 
   Lemma kids_run : forall ks, Forall P ks -> forall nodes x open chunks pres cont pname,
     ctx (mkss nodes (x :: open) chunks) pres cont ->
@@ -490,8 +465,8 @@ Section RoundTrip.
   Proof.
     induction ks as [|k ks IH]; intros HP nodes x open chunks pres cont pname Hc Hr Hpn; [reflexivity|].
     inversion HP as [|? ? Hk HP']; subst. cbn [forallb] in Hr. apply andb_prop in Hr as [Hr1 Hr2].
-    cbn [tokens_kids nk]. rewrite mrun_app. rewrite (Hk nodes x open chunks pres cont (Some pname) (starts_nl ks) Hc Hr1 Hpn).
-    destruct (nk1 pres cont chunks (starts_nl ks) k) as [ns1 ch1]. unfold result at 1. cbn [fst snd].
+    cbn [tokens_kids nk]. rewrite mrun_app. rewrite (Hk nodes x open chunks pres cont (Some pname) Hc Hr1 Hpn).
+    destruct (nk1 pres cont chunks k) as [ns1 ch1]. unfold result at 1. cbn [fst snd].
     rewrite (IH HP' _ x open ch1 pres cont pname) by (try eapply ctx_sn_kids; eassumption).
     destruct (nk pres cont ch1 ks) as [ns2 ch2]. unfold result. cbn [fst snd]. now rewrite sn_kids_app.
   Qed.
@@ -506,7 +481,7 @@ Section RoundTrip.
     cbn [forallb] in Hr. apply andb_prop in Hr as [Hr1 Hr2].
     destruct k as [p' ks'|c t]; [discriminate Hr1|]. cbn [raw_text_ok] in Hr1. apply andb_prop in Hr1 as [Hk Hw].
     apply str_eqb_eq in Hw.
-    cbn [tokens_kids tokens nk nk1]. unfold kind0. rewrite Hk. unfold string_tokens. apply N.eqb_eq in Hk. rewrite Hk, Hw.
+    cbn [tokens_kids tokens nk nk1]. unfold kind0. rewrite Hk. unfold string_tokens, preformatted. rewrite Hk. cbn [negb]. rewrite Hw.
     cbn [app]. rewrite mrun_cons, step_text_raw.
     destruct (IH (mkss (s_nodes s) (s_open s) (match t with [] => s_pending s | _ :: _ => t :: s_pending s end)) e cl pres cont pname Hr2)
       as [E1 E2]. cbn [s_nodes s_open s_pending] in E1, E2. unfold push_text.
@@ -514,24 +489,33 @@ Section RoundTrip.
     cbn [fst snd] in *. subst ns2. rewrite E1. split; reflexivity.
   Qed.
 
+  Lemma trailing_cases c : trailing c = [] \/ trailing c = [nl_].
+  Proof. unfold trailing. destruct (ends_nl _); auto. Qed.
+
+  (* the text token a declaration's trailing newline is *)
+  Lemma trailing_run s c :
+    mrun (s, r0) (match trailing c with [] => [] | t => [TText t] end) =
+    (mkss (s_nodes s) (s_open s) (push_text (trailing c) (s_pending s)), r0).
+  Proof.
+    destruct (trailing_cases c) as [-> | ->]; [destruct s; reflexivity|].
+    cbn [mrun fold_left]. unfold r0. rewrite step_text. cbn iota. rewrite Hrt_nl. reflexivity.
+  Qed.
+
   Lemma string_run c t : P (NStr c t).
   Proof.
-    intros nodes x open chunks pres cont pn nnl Hc Hr Hpn. cbn [representable] in Hr. unfold string_ok in Hr.
-    cbn [tokens nk1]. unfold string_tokens, kind0, kind2. rewrite match_kind.
-    destruct (N.eqb_spec (output_kind c) 0) as [E0|E0].
+    intros nodes x open chunks pres cont pn Hc Hr Hpn. cbn [representable] in Hr. unfold string_ok in Hr.
+    cbn [tokens nk1]. unfold string_tokens, kind0, preformatted.
+    destruct (N.eqb_spec (output_kind c) 0) as [E0|E0]; cbn [negb].
     - destruct (affixes c) as [[|] [|]]; try discriminate Hr. cbn [fst snd app]. rewrite app_nil_r.
       assert (Es : substitute f true pn t = g t).
       { unfold substitute. rewrite Hsub. cbn [andb]. destruct pn as [n|]; [cbn in Hpn; now rewrite Hpn|reflexivity]. }
       rewrite Es, mrun_cons. unfold r0. rewrite step_text. cbn [s_nodes s_open s_pending mrun fold_left].
       rewrite push_text_written. reflexivity.
-    - destruct (N.eqb_spec (output_kind c) 2) as [E2|E2].
-      + pose proof (kind2_is_doctype c E2) as ->. cbn [read_special andb].
-        rewrite mrun_cons. unfold r0. rewrite (step_special _ _ _ _ pres cont [] 6%N t 6%N t Hc eq_refl).
-        destruct nnl; cbn [negb]; [reflexivity|]. rewrite mrun_cons, step_text. cbn [s_nodes s_open s_pending].
-        now rewrite Hrt_nl.
-      + cbn [andb]. rewrite mrun_cons. destruct (read_special c t) as [[c' s']|] eqn:Er.
-        * unfold r0. now rewrite (step_special _ _ _ _ pres cont [] c t c' s' Hc Er).
-        * unfold mstep, r0. cbn [snd fst]. rewrite read_special_events, Er. reflexivity.
+    - rewrite mrun_cons. destruct (read_special c t) as [[c' s']|] eqn:Er.
+      + unfold r0 at 1. rewrite (step_special _ _ _ _ pres cont [] c t c' s' Hc Er). fold r0.
+        rewrite trailing_run. reflexivity.
+      + unfold mstep, r0 at 1. cbn [snd fst]. rewrite read_special_events, Er. cbn [fold_left]. fold r0.
+        rewrite trailing_run. reflexivity.
   Qed.
 
   Lemma remove_first_hd q l : remove_first q (q :: l) = l.
@@ -539,11 +523,11 @@ Section RoundTrip.
 
   Lemma tag_run p ks : Forall P ks -> P (NTag p ks).
   Proof.
-    intros IH nodes x open chunks pres cont pn nnl Hc Hr Hpn.
+    intros IH nodes x open chunks pres cont pn Hc Hr Hpn.
     cbn [representable] in Hr. cbn zeta in Hr.
     repeat (apply andb_prop in Hr as [Hr ?]).
-    rename H into Hkids, H0 into Hvoid, H1 into Hkeys, H2 into Hroot, H3 into Hlow.
-    apply negb_true_iff in Hr, Hroot. apply str_eqb_eq in Hlow.
+    rename H into Hkids, H0 into Hvoid, H1 into Hkeys, H2 into Hlow.
+    apply negb_true_iff in Hr. apply str_eqb_eq in Hlow.
     set (q := qname p) in *.
     set (attrs := norm_attrs enc f p).
     set (nodes1 := sn_kids cfg nodes x (flushc pres cont chunks)).
@@ -563,7 +547,7 @@ Section RoundTrip.
                      mkss (nodes1 ++ [tagn]) (x :: open) []).
     { change [EStart q None attrs; EEnd q None] with ([EStart q None attrs] ++ [EEnd q None]).
       rewrite fold_left_app, Hstart. unfold me, tagn in *. rewrite <- (app_nil_r (nodes1 ++ [_])) at 1.
-      rewrite (step_end nodes1 x open (Some x) attrs q [] [] pres' cont' Hroot) by exact (ctx_grow _ [] _ [] [] _ _ Hc2).
+      rewrite (step_end nodes1 x open (Some x) attrs q [] [] pres' cont') by exact (ctx_grow _ [] _ [] [] _ _ Hc2).
       cbn [flushc sn_kids]. now rewrite app_nil_r. }
     (* the promised result *)
     unfold result. cbn [nk1 fst snd]. rewrite sn_kids_app. fold nodes1. rewrite nn_node_tag. cbn zeta. fold q pres' cont' attrs.
@@ -601,7 +585,7 @@ Section RoundTrip.
           assert (E : str_eqb q q = true) by now apply str_eqb_eq. rewrite E.
           unfold parser_endtag. cbn [rs_closed rs_raw andb memS existsb].
           unfold me, tagn in *. rewrite <- (app_nil_r (nodes1 ++ [_])) at 1.
-          rewrite (step_end nodes1 x open (Some x) attrs q [] ch pres' cont' Hroot)
+          rewrite (step_end nodes1 x open (Some x) attrs q [] ch pres' cont')
             by exact (ctx_grow _ [] _ [] ch _ _ Hc2).
           rewrite app_nil_r. cbn [app sn_kids]. rewrite sn_node_tag. reflexivity.
         * (* ordinary element *)
@@ -612,7 +596,7 @@ Section RoundTrip.
           cbn [mrun fold_left]. unfold mstep, r0, read_token. cbn [snd fst rs_raw rs_closed]. rewrite Hlow.
           unfold parser_endtag. cbn [rs_closed rs_raw andb memS existsb].
           unfold me, tagn in *. destruct (sn_kids_prefix cfg ns (nodes1 ++ [mksn (Some x) (tag_payload cfg q attrs)]) (length nodes1)) as [more Em]. rewrite Em.
-          rewrite (step_end nodes1 x open (Some x) attrs q more ch pres' cont' Hroot)
+          rewrite (step_end nodes1 x open (Some x) attrs q more ch pres' cont')
             by exact (ctx_grow _ more _ [] ch _ _ Hc2).
           rewrite <- Em, <- sn_kids_app. cbn [sn_kids]. rewrite sn_node_tag. reflexivity.
   Qed.
@@ -668,19 +652,16 @@ Section RoundTrip.
       + specialize (IH HQ' pres cont [] (Forall_nil _)) as [I1 I2].
         destruct (nk pres cont [] ks) as [ns2 ch2]. cbn [fst snd] in *. split; [exact I1|].
         rewrite <- !app_assoc, I2, (Hk pres cont), flushc_flush by assumption. reflexivity.
-      + unfold kind0, kind2. destruct (output_kind c =? 0)%N.
+      + unfold kind0. destruct (output_kind c =? 0)%N.
         * destruct (push_text_ok s chunks Hok) as [O1 O2]. specialize (IH HQ' pres cont _ O1) as [I1 I2].
           destruct (nk pres cont (push_text s chunks) ks) as [ns2 ch2]. cbn [fst snd app] in *. rewrite O2 in I2. split; assumption.
         * destruct (read_special c s) as [[c' s']|].
-          -- set (ch1 := if (output_kind c =? 2)%N && negb (starts_nl ks) then [[nl_]] else []).
-             assert (O1 : chunks_ok ch1) by (unfold ch1; destruct (_ && _); repeat constructor; discriminate).
-             assert (O2 : concat (rev ch1) = if (output_kind c =? 2)%N && negb (starts_nl ks) then [nl_] else [])
-               by (unfold ch1; destruct (_ && _); reflexivity).
-             specialize (IH HQ' pres cont ch1 O1) as [I1 I2].
-             destruct (nk pres cont ch1 ks) as [ns2 ch2]. cbn [fst snd] in *. split; [exact I1|].
-             rewrite <- !app_assoc. cbn [app]. rewrite flushc_flush by assumption. f_equal. f_equal. rewrite I2. f_equal. exact O2.
-          -- specialize (IH HQ' pres cont chunks Hok) as [I1 I2].
-             destruct (nk pres cont chunks ks) as [ns2 ch2]. cbn [fst snd app] in *. split; assumption.
+          -- destruct (push_text_ok (trailing c) [] (Forall_nil _)) as [O1 O2]. cbn [rev concat app] in O2.
+             specialize (IH HQ' pres cont (trail_chunks c) O1) as [I1 I2]. unfold trail_chunks in *.
+             destruct (nk pres cont (push_text (trailing c) []) ks) as [ns2 ch2]. cbn [fst snd] in *. split; [exact I1|].
+             rewrite <- !app_assoc. cbn [app]. rewrite flushc_flush by assumption. f_equal. f_equal. rewrite I2. now rewrite O2.
+          -- destruct (push_text_ok (trailing c) chunks Hok) as [O1 O2]. specialize (IH HQ' pres cont _ O1) as [I1 I2].
+             destruct (nk pres cont (push_text (trailing c) chunks) ks) as [ns2 ch2]. cbn [fst snd app] in *. rewrite O2 in I2. split; assumption.
   Qed.
   Lemma nn_norm : forall t, Q t.
   Proof.
@@ -722,7 +703,7 @@ Section RoundTrip.
       unfold result. cbn [fst].
       rewrite (flush_step _ _ _ _ false 0%N None) by (eapply ctx_sn_kids; exact Hc).
       cbn [s_nodes flush_class]. now rewrite <- sn_kids_app, nk_norm_kids.
-    - rewrite (tree_run (NTag p ks) [root_snode cfg] 0%nat [] [] false 0%N None false Hc Hr I).
+    - rewrite (tree_run (NTag p ks) [root_snode cfg] 0%nat [] [] false 0%N None Hc Hr I).
       unfold result. cbn [nk1 fst snd flushc app s_flush s_pending s_nodes]. now rewrite nn_norm.
   Qed.
 End RoundTrip.
